@@ -123,6 +123,11 @@ func VerifC10_V2Precedence() {
 			addr = "https://new.example"
 		}
 		first.Relays = map[string]*ProposerRelayConfig{addr: {Disabled: disabled, FeeRecipient: over.feeP(fam), GasLimit: over.gasP(fam), Grace: over.graceP(fam), MinValue: over.minP(fam)}}
+		if !disabled && vnd.Bool("override.written-as-null") {
+			// "relays":{"<addr>":null}: an entry without values of its own, the same as {}
+			first.Relays[addr] = nil
+			over = c10Vals{}
+		}
 	}
 	// a second entry that also matches must never be applied once the first one matched
 	decoyFee := bellatrix.ExecutionAddress{0xdd}
